@@ -31,7 +31,7 @@ PROP = dict(
          "missing pillar infos, details without reward), stake/sentinel entries starting/ending around the epoch borders and the 90 % uptime threshold, "
          "cursor states with 0..45 epochs due and `now` at the due second -1/0/+1; "
          "node: real node, epoch duration from {5,10,15,30,60} min, random pillar registrations/revocations, delegations, give-percentage updates, stakes, "
-         "sentinels, skipped momentum slots, Update and CollectReward at random times; a case is distinct by (function, input)",
+         "sentinels, skipped momentum slots, Update and CollectReward at random times, and a follower node fed by InsertChain; a case is distinct by (function, input)",
     explanation="Theorems: the translated emission functions never panic and the per-contract shares of an epoch add up to at most its emission; "
                 "for well-formed epoch statistics everything credited to pillars and backers for an epoch is at most (delegation+producing reward per momentum) x expected momentums "
                 "(74 % of the epoch's ZNN emission for a 24 h epoch); stake / sentinel credits are at most their share; any pro-rata split hands out at most the total; "
@@ -52,7 +52,7 @@ META = dict(
          "Sampling scenarios cannot bound the sum over all participants for all epochs, nor show that no update timing rewards an epoch twice.",
     design_ref="DESIGN.md section 5, C11",
     note="Trusted: Coq kernel; go2coq/constdump; the harness. Epoch statistics (consensus/points.go) enter as observed inputs with a well-formedness hypothesis that the harness checks on the real node; "
-         "node-to-node agreement of the statistics cache is explored by the harness only. Liquidity-stake rewards after the bridge spork are covered by the generic split theorem, not yet by a model of computeLiquidityStakeRewardsForEpoch. "
+         "node-to-node agreement is checked by a follower node fed through ChainBridge.InsertChain (oracle), not proved. computeLiquidityStakeRewardsForEpoch is modelled (C11_liquidity_stake_exact); that it never returns ErrInvalidRewards for percentages <= 100 % is not proved. "
          "Fixed in /repo a732e8e: updateLiquidityRewards advanced the cursor past an unrewarded epoch when more than 10 epochs were due.",
     technique="Coq proof (induction over lists/histories, lia/nia with explicit int64/uint64 wrap) over translated source + differential correspondence check on real contract code",
 )
